@@ -7,6 +7,9 @@ import FeatModel.Lemmas.C15Tab
 import FeatModel.Lemmas.C15Dual
 import FeatModel.Lemmas.C15Dof
 import FeatModel.Lemmas.C15Repro
+import FeatModel.Lemmas.C15Conform
+import FeatModel.Lemmas.C15Chain
+import FeatModel.Lemmas.C15AnyCell
 /-!
 # C15 — finite-element bases are unisolvent, derivative-consistent and conforming: property theorems
 
@@ -129,8 +132,156 @@ theorem C15.local_dofs_are_entity_dofs (f : Fam) (m : Mesh) (c : Nat) :
 theorem C15.dof_in_range (f : Fam) (m : Mesh) (d e j : Nat) (hd : d ≤ m.dim) (he : e < m.n d)
     (hj : j < dpd f m d) : entityDof f m d e j < numDofs f m := entityDof_lt_numDofs f m hd he hj
 
+/-! ## H¹-conformity: traces on facets (extension round) -/
+
+/-- Trace conformity in 2-D (P1, P2, P3, P2-bubble on the triangle; Q1, Q2, Q3, Bernstein-2 on the quadrilateral), for
+    **every** orientation `o` of the edges of the reference cell and every edge `l` in its stored orientation: the
+    trace of local basis function `i` (model of the evaluator incl. the Lagrange-3 permutation), as a polynomial in the
+    edge's own reference coordinate, is the basis function of the edge's own element (`facetBasis`: the generated 1-D
+    table for hypercubes, the canonical edge for simplices) belonging to the same node functional, and the zero
+    polynomial if the DOF is not attached to the edge; each functional of the edge occurs exactly once. -/
+theorem C15.trace_conformity_2d (key : Fam × Kind) (h : key ∈ traceKeys2 ++ traceKeys2L3) (o : List Nat)
+    (ho : o ∈ allOrients (numFaces key.2 2 1)) (l : Nat) (hl : l < numFaces key.2 2 1) :
+    traceOk key.1 key.2 2 (refMesh key.2 2 o) ((refMesh key.2 2 o).row 1 0 l) = true := by
+  have := traceAll2_of_key h
+  simp only [traceAll2, List.all_eq_true, List.mem_range] at this
+  exact this o ho l hl
+
+/-- Trace conformity in 3-D (P1, P2 on the tetrahedron; Q1, Q2, Bernstein-2 on the hexahedron) for every face `l`
+    stored with **every** symmetry `π` of the face: the trace on the face, in the face's own reference coordinates, is
+    the basis function of the face's own 2-D element (generated tables `BasisS2` / `BasisH2`) with the same functional,
+    or zero.  Lagrange-3 on the hexahedron is covered by the correspondence run only (`_partial` in that sense). -/
+theorem C15.trace_conformity_3d_partial (key : Fam × Kind) (h : key ∈ traceKeys3) (l : Nat)
+    (hl : l < numFaces key.2 3 2) (π : List Nat) (hπ : π ∈ shapeSyms key.2 2) :
+    traceOk key.1 key.2 3 (refMesh key.2 3 []) (storedRow key.2 3 2 l π) = true := by
+  have := traceAll3_of_key h
+  simp only [traceAll3, traceFaces3, List.all_eq_true, List.mem_range] at this
+  exact this l hl π hπ
+
+/-- What `traceOk` means at every point `s` of the facet: the value (as returned by the model of the evaluator at the
+    embedded point) of local basis function `i` is the value of the facet's own basis function, or 0. -/
+theorem C15.trace_is_facet_function (f : Fam) (k : Kind) (dim : Nat) (m : Mesh) (r : List Nat) (tab : BasisTab)
+    (ht : tabOf f k dim = some tab) (h : traceOk f k dim m r = true) (i : Nat) (hi : i < tab.nloc) (s : List Rat) :
+    evalAt (embedPt' k dim (dim - 1) r s) (tab.val ((slotPerm f m 0).getD i i))
+      = match facetId f k dim r i with
+        | some id => evalAt s ((facetBasis f k dim).getD id [])
+        | none => 0 :=
+  traceOk_eval ht h hi s
+
+/-- The transformation is conforming, for arbitrary vertex coordinates (affine and multilinear cells): restricted to
+    any sub-entity (stored row `r`, any symmetry) through the reference embedding it is the sub-entity's own
+    transformation.  Hence two cells sharing a facet map the facet point with intrinsic coordinates `s` to the same
+    physical point. -/
+theorem C15.trafo_restricts_to_subentity (k : Kind) (dim d l : Nat) (π : List Nat)
+    (hdim : dim = 1 ∨ dim = 2 ∨ dim = 3) (hd : 1 ≤ d ∧ d < dim) (hl : l < numFaces k dim d) (hπ : π ∈ shapeSyms k d)
+    (V : List (List Rat)) (w : Nat) (hV : uniformV V (numVerts k dim) w) (s : List Rat) :
+    mapPoint k dim V (embedPt' k dim d (storedRow k dim d l π) s)
+      = mapPoint k d ((storedRow k dim d l π).map fun v => V.getD v []) s :=
+  embedding_lemma (shapeTrace_of_sym hdim hd hl hπ) hV (numVerts_pos k d) (numVerts_pos k dim) s
+
+/-- **Two one-sided traces agree.**  Let `A = (mA, rA)` and `B = (mB, rB)` be two cell configurations (orientation of
+    the cell's edges, stored row of the shared facet as seen from the cell) passing `traceOk`, with local coefficient
+    vectors `uA`, `uB` that come from one global vector: the coefficient of a local DOF attached to the facet is `U id`
+    for its facet functional `id` (this is `dof_one_index`: both cells see the same global index for the same
+    functional).  Then at every point `s` of the facet the two finite element functions coincide.
+    Together with `trafo_restricts_to_subentity` (same physical point from both sides, any cell geometry) this is
+    H¹-conformity across the facet.  `_partial`: the cell configurations are reference configurations; that an
+    arbitrary mesh cell *is* such a configuration (up to renaming of global indices) is covered by the correspondence run. -/
+theorem C15.two_sided_traces_agree_partial (f : Fam) (k : Kind) (dim : Nat) (tab : BasisTab)
+    (ht : tabOf f k dim = some tab) (mA mB : Mesh) (rA rB : List Nat)
+    (hA : traceOk f k dim mA rA = true) (hB : traceOk f k dim mB rB = true) (uA uB U : Nat → Rat)
+    (huA : ∀ i, i < tab.nloc → ∀ id, facetId f k dim rA i = some id → uA i = U id)
+    (huB : ∀ i, i < tab.nloc → ∀ id, facetId f k dim rB i = some id → uB i = U id) (s : List Rat) :
+    ((List.range tab.nloc).map fun i =>
+        uA i * evalAt (embedPt' k dim (dim - 1) rA s) (tab.val ((slotPerm f mA 0).getD i i))).sum
+      = ((List.range tab.nloc).map fun i =>
+        uB i * evalAt (embedPt' k dim (dim - 1) rB s) (tab.val ((slotPerm f mB 0).getD i i))).sum := by
+  rw [one_sided_trace ht hA uA U huA s, one_sided_trace ht hB uB U huB s]
+
+/-! ## duality and reproduction on arbitrary cells (extension round) -/
+
+/-- Duality on **every cell** with the topology/orientation of a checked reference configuration and arbitrary vertex
+    coordinates `V` (affine or multilinear, any dimension of the ambient space): the node functionals of the cell are
+    point evaluations at the images `T(x̂_g)` of the reference nodes, so the basis function `Φ_j = φ̂_j ∘ T⁻¹`
+    (characterised by `Φ_j(T(x)) = φ̂_j(x)`) is interpolated to the `j`-th unit vector. -/
+theorem C15.dual_on_every_cell (f : Fam) (k : Kind) (dim : Nat) (o : List Nat) (tab : BasisTab)
+    (hc : geomConfig k dim o) (ht : tabOf f k dim = some tab) (h : dualOk f k dim o = true)
+    (V : List (List Rat)) (w : Nat) (hV : uniformV V (numVerts k dim) w) (j : Nat) (hj : j < tab.nloc) (Φ : Poly)
+    (hΦ : ∀ x, evalAt (mapPoint k dim V x) Φ = evalAt x (tab.val ((slotPerm f (refMesh k dim o) 0).getD j j))) :
+    interpolate f (cellMesh k dim o V) Φ
+      = (List.range (numDofs f (refMesh k dim o))).map fun g =>
+          if g = (localDofs f (refMesh k dim o) 0).getD j 0 then 1 else 0 :=
+  dual_cell (geomOk_of_config hc).2 (geomOk_of_config hc).1 hV ht h hj Φ hΦ
+
+/-- Reproduction on **every cell**: a function `p` whose pull-back `p ∘ T` is the combination `Σ c_j φ̂_j` of the
+    reference basis (for affine `T`: exactly the functions of the local space `P̂ ∘ T⁻¹`) is interpolated by the model of
+    `Assembly::Interpolator` to exactly the coefficients `c`. -/
+theorem C15.reproduces_on_every_cell (f : Fam) (k : Kind) (dim : Nat) (o : List Nat) (tab : BasisTab)
+    (hc : geomConfig k dim o) (ht : tabOf f k dim = some tab) (h : dualOk f k dim o = true) (hpos : 0 < tab.nloc)
+    (V : List (List Rat)) (w : Nat) (hV : uniformV V (numVerts k dim) w) (c : List Rat) (p : Poly)
+    (hp : ∀ x, evalAt (mapPoint k dim V x) p = evalAt x (linComb c (localBasis f (refMesh k dim o) tab))) :
+    interpolate f (cellMesh k dim o V) p
+      = (List.range (numDofs f (refMesh k dim o))).map fun g =>
+          dot c ((List.range tab.nloc).map fun j =>
+            if g = (localDofs f (refMesh k dim o) 0).getD j 0 then 1 else 0) :=
+  reproduces_cell (geomOk_of_config hc).2 (geomOk_of_config hc).1 hV ht h hpos c p hp
+
+/-- Every cell of every 2-D mesh is a checked reference configuration as far as the evaluator is concerned: the
+    orientation-dependent part of the model of the evaluator (`slotPerm`, used by the `ev`/`interp` ops) of cell `c` of
+    an arbitrary mesh `m` equals that of the reference cell with edge orientation `edgeCodes m c`, and that orientation
+    is one of the `allOrients` covered by `trace_conformity_2d` / `dual_on_reference_cell_partial`. -/
+theorem C15.local_basis_of_any_cell_2d (f : Fam) (m : Mesh) (c : Nat) (hdim : m.dim = 2) :
+    edgeCodes m c ∈ allOrients (numFaces m.kind 2 1) ∧
+    slotPerm f m c = slotPerm f (refMesh m.kind 2 (edgeCodes m c)) 0 :=
+  slotPerm_eq_ref_2d f m c hdim
+
+/-! ## chain rule (extension round) -/
+
+/-- First-order chain rule of the model of `ParametricEvaluator`, tied to the output of the `ev` op (`evalCell`), for
+    every mesh, cell, point with `det J ≠ 0` (affine **and** multilinear cells, pointwise) and every family with
+    gradients: if `g` is the gradient returned for local basis function `i` and `J` the returned Jacobian (which is the
+    derivative of `map_point`, `C15.jac_is_derivative`), then `(Jᵀ g)_k = ∂φ̂_i/∂x̂_k (x̂)`, i.e. `g = J⁻ᵀ ĝrad φ̂_i` is the
+    gradient of `φ̂_i ∘ T⁻¹` at `T(x̂)`. -/
+theorem C15.chain_rule_first_order (f : Fam) (m : Mesh) (c : Nat) (x : List Rat) (tab : BasisTab) (ce : CellEval)
+    (hd : m.dim = 1 ∨ m.dim = 2 ∨ m.dim = 3) (ht : tabOf f m.kind m.dim = some tab)
+    (he : evalCell f m c x = some ce) (hg : tab.hasGrad = true)
+    (hdet : det m.dim (jacMat m.kind m.dim (m.entVerts m.dim c) x) ≠ 0)
+    (i : Nat) (hi : i < tab.nloc) (k : Nat) (hk : k < m.dim) :
+    jacTApply m.dim (jacMat m.kind m.dim (m.entVerts m.dim c) x)
+        (ce.phi.getD i { value := 0, grad := [], hess := [] }).grad k
+      = evalAt x (tab.grad ((slotPerm f m c).getD i i) k) :=
+  chain_rule_ev hd ht he hg hdet hi hk
+
+/-! ## tensor-product tables (extension round) -/
+
+/-- **tensor_table_correct**, generic in the 1-D table, the dimension, the index list and the samples: if the 1-D
+    table consists of one-variable polynomials and the samples of the real n-D evaluator are the products of the 1-D
+    table's evaluations (`fastSamplesOk`, cheap), then the tensor-product table (values, gradients, Hessians as products
+    of the 1-D value / derivative polynomials) reproduces all samples. -/
+theorem C15.tensor_table_correct (t1 : BasisTab) (n : Nat) (hG hH : Bool) (idx : List (List Nat))
+    (samples : List (List Rat × List Nat × List Rat)) (h1 : oneVarTab t1 = true)
+    (hf : fastSamplesOk t1 n hG hH idx samples = true) :
+    (tensorTab t1 n hG hH idx samples).samplesOk = true :=
+  FeatModel.Poly.tensor_table_correct t1 n hG hH idx samples h1 hf
+
+/-- Lagrange-3 on the hexahedron (64 basis functions; values, gradients and Hessians on the 4×4×4 grid): the table
+    used by the driver reproduces every sample of the real evaluator — through `tensor_table_correct`.  (`_partial`:
+    no kernel-checked `gradOk`/`hessOk` for this table; its gradient/Hessian polynomials are products containing the
+    derivative polynomials of the checked 1-D table, and they match the evaluator's gradient/Hessian samples.) -/
+theorem C15.tables_match_samples_tensor_partial (key : Key) (h : key ∈ sampleKeys) :
+    ∃ t, tabOf key.1 key.2.1 key.2.2 = some t ∧ t.shapeOk = true ∧ t.samplesOk = true := by
+  simp only [sampleKeys, List.mem_cons, List.not_mem_nil, or_false] at h
+  subst h
+  exact ⟨FeatModel.Gen.BasisH3.l3, rfl, shape_l3, samples_l3⟩
+
 /-! Non-vacuity of the hypotheses used above. -/
 example : ((Fam.L3, Kind.H, 2) : Key) ∈ checkedKeys := by decide
 example : ((Fam.L3, Kind.S, 2) : Key) ∈ dualKeys2 ++ dualKeys2b := by decide
 example : [0, 1, 1, 0] ∈ allOrients (numFaces Kind.H 2 1 * (if (2 : Nat) ≥ 2 then 1 else 0)) := by decide
 example : ∃ t, tabOf Fam.L3 Kind.H 2 = some t ∧ t.hasHess = true ∧ 0 < t.nloc := ⟨_, rfl, by decide, by decide⟩
+example : geomConfig Kind.H 2 [1, 0, 0, 1] := Or.inl ⟨rfl, by decide⟩
+example : uniformV [[0, 0, 1], [2, 1, 0], [1, 3, 5]] (numVerts Kind.S 2) 3 := by
+  intro i hi
+  have : i = 0 ∨ i = 1 ∨ i = 2 := by simp [numVerts] at hi; omega
+  rcases this with rfl | rfl | rfl <;> rfl
+example : ((Fam.L3, Kind.H) : Fam × Kind) ∈ traceKeys2 ++ traceKeys2L3 := by decide
